@@ -1,12 +1,15 @@
 (* The exact instance K16 = Q(zeta_16) = K8[w]/(w^2 - zeta_8): pairs (a, b) = a + b w over K8.  It contains a square root of
    zeta_8 = (1+i)/sqrt 2, i.e. a unit r with r^2 = exp(i pi/4): the classes e = +-1/4 (mod 2) of the IonQ dispatch theorems
-   (gates t / ti) are inhabited here.  Used only for non-vacuity Examples. *)
+   (gates t / ti) are inhabited here.  Used only for non-vacuity Examples.  The laws are proved over K8's ring (K8 elements
+   are atoms), not coordinatewise. *)
 From Coq Require Import QArith Qcanon Ring.
 From VF Require Import Base.RingOps Base.K8.
 
 Local Open Scope Qc_scope.
 Definition z8 : K8 := mk8 0 1 0 0.
 Definition z8c : K8 := mk8 0 0 0 (- (1)).        (* zeta_8^-1 = conj zeta_8 *)
+Definition k8_0 : K8 := mk8 0 0 0 0.
+Definition k8_1 : K8 := mk8 1 0 0 0.
 Definition K16 := (K8 * K8)%type.
 Definition k16_add (x y : K16) : K16 := (k8_add (fst x) (fst y), k8_add (snd x) (snd y)).
 Definition k16_opp (x : K16) : K16 := (k8_opp (fst x), k8_opp (snd x)).
@@ -15,38 +18,52 @@ Definition k16_mul (x y : K16) : K16 :=
   (k8_add (k8_mul (fst x) (fst y)) (k8_mul z8 (k8_mul (snd x) (snd y))),
    k8_add (k8_mul (fst x) (snd y)) (k8_mul (snd x) (fst y))).
 Definition k16_conj (x : K16) : K16 := (k8_conj (fst x), k8_mul (k8_conj (snd x)) z8c).
-Definition k8_0 : K8 := mk8 0 0 0 0.
 Definition K16Ops : Ops K16 :=
-  mkOps K16 (k8_0, k8_0) (mk8 1 0 0 0, k8_0) k16_add k16_mul k16_opp k16_sub k16_conj
+  mkOps K16 (k8_0, k8_0) (k8_1, k8_0) k16_add k16_mul k16_opp k16_sub k16_conj
         (ki K8Ops, k8_0) (khalf K8Ops, k8_0) (ks2 K8Ops, k8_0).
 
-Ltac k16 := intros; repeat match goal with x : (_ * _)%type |- _ => destruct x end; repeat match goal with x : K8 |- _ => destruct x end;
-            unfold k16_add, k16_mul, k16_opp, k16_sub, k16_conj, k8_add, k8_mul, k8_opp, k8_sub, k8_conj, z8, z8c, k8_0;
-            cbn [fst snd c0 c1 c2 c3]; apply (f_equal2 pair); f_equal; ring.
+Add Ring K8r : K8_ring.
 
-Lemma K16_ring : ring_theory (k8_0, k8_0) (mk8 1 0 0 0, k8_0) k16_add k16_mul k16_sub k16_opp (@eq K16).
-Proof. constructor; k16. Qed.
+Lemma zzc : k8_mul z8 z8c = mk8 1 0 0 0. Proof. vm_compute. reflexivity. Qed.
+Lemma cj_z : k8_conj z8 = z8c. Proof. vm_compute. reflexivity. Qed.
+Lemma cj_zc : k8_conj z8c = z8. Proof. vm_compute. reflexivity. Qed.
+Lemma cj_add a b : k8_conj (k8_add a b) = k8_add (k8_conj a) (k8_conj b). Proof. exact (law_conj_add K8Ops K8Laws a b). Qed.
+Lemma cj_mul a b : k8_conj (k8_mul a b) = k8_mul (k8_conj a) (k8_conj b). Proof. exact (law_conj_mul K8Ops K8Laws a b). Qed.
+Lemma cj_inv a : k8_conj (k8_conj a) = a. Proof. exact (law_conj_invol K8Ops K8Laws a). Qed.
+Lemma cj_0 : k8_conj k8_0 = k8_0. Proof. vm_compute. reflexivity. Qed.
 
-Lemma qhalf2' : qhalf + qhalf = 1. Proof. apply Qc_is_canon. reflexivity. Qed.
-Lemma qhalf_sq' : qhalf * qhalf + qhalf * qhalf = qhalf. Proof. apply Qc_is_canon. reflexivity. Qed.
+Ltac k16 := intros; repeat match goal with x : (_ * _)%type |- _ => destruct x | x : K16 |- _ => destruct x end;
+            unfold k16_add, k16_mul, k16_opp, k16_sub, k16_conj; cbn [fst snd]; apply (f_equal2 pair).
+
+Lemma K16_ring : ring_theory (k8_0, k8_0) (k8_1, k8_0) k16_add k16_mul k16_sub k16_opp (@eq K16).
+Proof. constructor; k16; unfold k8_0, k8_1; ring. Qed.
+
+(* K8 embeds as (a, 0) *)
+Lemma emb_mul a b : k16_mul (a, k8_0) (b, k8_0) = (k8_mul a b, k8_0).
+Proof. unfold k16_mul; cbn [fst snd]; apply (f_equal2 pair); unfold k8_0; ring. Qed.
+Lemma emb_add a b : k16_add (a, k8_0) (b, k8_0) = (k8_add a b, k8_0).
+Proof. unfold k16_add; cbn [fst snd]; apply (f_equal2 pair); unfold k8_0; ring. Qed.
+Lemma emb_opp a : k16_opp (a, k8_0) = (k8_opp a, k8_0).
+Proof. unfold k16_opp; cbn [fst snd]; apply (f_equal2 pair); unfold k8_0; ring. Qed.
+Lemma emb_conj a : k16_conj (a, k8_0) = (k8_conj a, k8_0).
+Proof. unfold k16_conj; cbn [fst snd]; f_equal; rewrite cj_0; unfold k8_0; ring. Qed.
 
 Theorem K16Laws : Laws K16Ops.
 Proof.
-  constructor; simpl.
+  constructor; cbn [k0 k1 kadd kmul kopp ksub kconj ki khalf ks2 K16Ops].
   - exact K16_ring.
-  - unfold k16_mul, k16_opp, k8_add, k8_mul, k8_opp, z8, k8_0; cbn [fst snd c0 c1 c2 c3 ki khalf ks2 K8Ops]. apply (f_equal2 pair); f_equal; ring.
-  - unfold k16_add, k8_add, k8_0; cbn [fst snd c0 c1 c2 c3 ki khalf ks2 K8Ops]. apply (f_equal2 pair); f_equal; try ring. exact qhalf2'.
-  - unfold k16_mul, k8_add, k8_mul, z8, k8_0; cbn [fst snd c0 c1 c2 c3 ki khalf ks2 K8Ops]. apply (f_equal2 pair); f_equal; try ring.
-    transitivity (qhalf * qhalf + qhalf * qhalf); [ring | exact qhalf_sq'].
-  - k16.
-  - k16.
-  - k16.
-  - unfold k16_conj, k16_opp, k8_conj, k8_opp, k8_mul, z8c, k8_0; cbn [fst snd c0 c1 c2 c3 ki khalf ks2 K8Ops]. apply (f_equal2 pair); f_equal; ring.
-  - unfold k16_conj, k8_conj, k8_mul, z8c, k8_0; cbn [fst snd c0 c1 c2 c3 ki khalf ks2 K8Ops]. apply (f_equal2 pair); f_equal; ring.
-  - unfold k16_conj, k8_conj, k8_mul, z8c, k8_0; cbn [fst snd c0 c1 c2 c3 ki khalf ks2 K8Ops]. apply (f_equal2 pair); f_equal; ring.
-  - unfold k16_conj, k8_conj, k8_mul, z8c, k8_0; cbn [fst snd c0 c1 c2 c3 ki khalf ks2 K8Ops]. apply (f_equal2 pair); f_equal; ring.
+  - rewrite emb_mul, emb_opp. f_equal; try exact (law_i K8Ops K8Laws).
+  - rewrite emb_add. f_equal; try exact (law_half K8Ops K8Laws).
+  - rewrite emb_mul. f_equal; try exact (law_s2 K8Ops K8Laws).
+  - k16; rewrite ?cj_add; ring.
+  - k16; rewrite ?cj_add, ?cj_mul, ?cj_z; ring [zzc].
+  - k16; rewrite ?cj_mul, ?cj_inv, ?cj_zc; [reflexivity | ring [zzc]].
+  - rewrite emb_conj, emb_opp. f_equal; try exact (law_conj_i K8Ops K8Laws).
+  - rewrite emb_conj. f_equal; try exact (law_conj_half K8Ops K8Laws).
+  - rewrite emb_conj. f_equal; try exact (law_conj_s2 K8Ops K8Laws).
+  - rewrite emb_conj. f_equal; try exact (law_conj_1 K8Ops K8Laws).
 Qed.
 
-(* w = (0, 1): w^2 = zeta_8 = (1 + i)/sqrt 2 *)
-Definition w16 : K16 := (k8_0, mk8 1 0 0 0).
+(* w = (0, 1): w^2 = zeta_8 = (1 + i)/sqrt 2, and w^-1 = (0, zeta_8^-1) *)
+Definition w16 : K16 := (k8_0, k8_1).
 Definition w16c : K16 := (k8_0, z8c).
